@@ -288,6 +288,7 @@ func c04Exec(t *testing.T, p *C04Plan, seed uint64, crash0 int, noCrash bool, re
 		}
 		time.Sleep(longest + 6*time.Second)
 		simnet.Quiesce()
+		ctl.DisarmAll() // (the observations below take file steps of their own)
 		c04Oracle(w, node, runners, units, mon, restartTimes, res)
 		for _, tr := range mon.Transitions() {
 			if why := simwork.CheckForward(tr); why != "" {
